@@ -83,6 +83,11 @@ members, and the latches `interrupt_pending`, `vinterrupt_pending/address/contex
 theorem race_free_partial : RaceFreeExcept table knownRacy :=
   (findRaces_sound table knownRacy).1 table_checks'.2.1
 
+/-- **`race_free` holds on the current tree** — for every shared member, the ICU vector tables included. -/
+theorem race_free_holds : race_free := by
+  have h : findRaces table [] = [] := table_checks'.2.1
+  exact (findRace_none_iff table).mp (by unfold findRace; rw [h]; rfl)
+
 /-- **No deadlock**: the lock-acquisition graph of both threads — including the locks held while
 callbacks run, what the wired callbacks acquire (`semaphore_mutex` → ICU mutex), and a host callback on
 `apbp_from_dsp` re-entering every mailbox API method under the recursive `semaphore_mutex` — is acyclic;
